@@ -22,7 +22,7 @@ def with_repeats(seed):
     p = gen_scalar.gen_program(seed)
     r = random.Random(seed ^ 0x5EED)
     out = list(p)
-    names = iter([f"z{i}" for i in range(20)])
+    names = iter([f"z{i}" for i in range(60)])
     sigs = [i for i, d in enumerate(p) if d[0] == "sig"]
     for i in sigs:
         if r.random() < 0.6:
@@ -53,6 +53,13 @@ def with_repeats(seed):
             continue
         out.append(("sig", next(names), ("bin", op, x, y)))
         out.append(("sig", next(names), ("bin", op, y, x)))
+        # ... each with a consumer of its own (a merged node shows in what its consumers read)
+        u, v = len(out) - 2, len(out) - 1
+        if r.random() < 0.8:
+            out.append(("sig", next(names), ("proj", ("var", u), r.choice(gen_scalar.SIGNALS))))
+            out.append(("sig", next(names), ("proj", ("var", v), r.choice(gen_scalar.SIGNALS))))
+        else:
+            out.append(("sig", next(names), ("bin", "-", ("var", v), ("bin", "*", ("var", u), ("int", 3)))))
     if gen_scalar.program_safe(out) and gen_scalar.s14_free(out):
         return out
     return p
